@@ -7,6 +7,7 @@ import Driver.Common
 import Sth.Model.Multihash
 import Sth.Model.Conc
 import Sth.Model.Rate
+import Sth.Model.Store
 
 namespace Driver.Sched
 open Sth Driver
@@ -30,7 +31,8 @@ structure St where
   concFinal : Option Conc.State := none      -- final state of the section model when its replay agreed
   lastGcOverlap : Bool := false              -- D18 recogniser of the last schedule
   keyFinals : List (String × List String) := []   -- per key: the values some linearization of the calls on that key ends with
-  d17Keys : List String := []                -- keys with two overlapping mutators in the last schedule
+  d17Keys : List String := []                -- keys sharing a bucket with a key that has two overlapping mutators in the last schedule
+  bits : Nat := 24
 deriving Repr
 
 def digestOf (khex : String) : Bytes := (mhDecode ((fromHex khex).getD [])).getD []
@@ -297,7 +299,7 @@ def overlap (a b : HOp) : Bool :=
 
 def step (st : St) (l : Line) : St × List Msg :=
   match l.op with
-  | "sopen" => ({ st with imm := l.args.get "imm" = "1", profile := if l.args.has "rate" then "c12" else "" },
+  | "sopen" => ({ st with imm := l.args.get "imm" = "1", profile := if l.args.has "rate" then "c12" else "", bits := l.args.nat "bits" },
                  if l.res = "ok" then [] else [.corr s!"sopen: {l.res}"])
   | "sprep" =>
     let (m', exp) := specOp st.imm st.spec (l.args.get "op")
@@ -319,12 +321,16 @@ def step (st : St) (l : Line) : St × List Msg :=
     let gcOverlap := started.any fun o => !isGC o.op && gcEvents.any fun (n, _) => o.inv ≤ n && n ≤ o.ret.getD 1000000
     -- The map is a product of independent registers, one per key, and linearizability is local (Herlihy-Wing): the history is
     -- linearizable iff its restriction to every key is. Verdicts and recognisers are therefore evaluated PER KEY: overlapping
-    -- mutators of key k (D17) can excuse a failure on k only - by the frame theorem C05_keys_do_not_interfere they cannot touch
-    -- another key. D18 (a collector invalidates a held position) stays history-wide: a call on one key can hold another key's
-    -- location through a matching stored prefix.
+    -- mutators of key k (D17) can excuse a failure on k and on the keys that share k's BUCKET: the late Index.Update / Index.Remove
+    -- of the losing mutator acts on a key that is absent by then, and at the record-list level a lookup of an absent key can hit
+    -- a neighbour whose stored prefix matches (C08_absent) - the neighbour's entry is removed or re-pointed (seen on the unchanged
+    -- tree in a thorough sweep: two overlapping Removes of K1 deleted the entry of K2, just inserted next to it). Keys in other
+    -- buckets cannot be touched. D18 (a collector invalidates a held position) stays history-wide.
     let dataKeys := (started.filter (fun o => (concOfOp o.op).isSome)).map (fun o => keyOfOp o.op) |>.eraseDups
-    let d17Keys := dataKeys.filter fun k => started.any fun a => started.any fun b =>
+    let overlapKeys := dataKeys.filter fun k => started.any fun a => started.any fun b =>
       !(a.thread == b.thread && a.idx == b.idx) && isMutator a.op && isMutator b.op && keyOfOp a.op == k && keyOfOp b.op == k && overlap a b
+    let bucketOf := fun (k : String) => bucketOfKey st.bits (digestOf k)
+    let d17Keys := dataKeys.filter fun k => overlapKeys.any fun k' => bucketOf k' == bucketOf k
     let knownFor := fun (k : String) => if d17Keys.contains k then " [known:D17 overlapping-mutators-of-one-key]"
                  else if gcOverlap then " [known:D18 collector-invalidates-held-position]" else ""
     let known := if gcOverlap then " [known:D18 collector-invalidates-held-position]" else if mutOverlap then " [known:D17 overlapping-mutators-of-one-key]" else ""
@@ -367,7 +373,9 @@ def step (st : St) (l : Line) : St × List Msg :=
       | none => ([], none)
       | some c0 =>
         let c := evs.foldl concEvent c0
-        ((c.bad.take 3).map (fun b => Msg.corr s!"section model: {b}") ++
+        -- outside the model's premise (overlapping mutators of one key) its exact-key index does not show the damage a late
+        -- Update / Remove can do to a neighbour with a matching stored prefix: a difference there is a flag, not a disagreement
+        ((c.bad.take 3).map (fun b => if overlapKeys.isEmpty then Msg.corr s!"section model: {b}" else Msg.flag "conc-model-differs-under-d17") ++
         (if c.bad.isEmpty ∧ c.steps > 0 then [Msg.flag "conc-model-agrees"] else []) ++
         (if c.bad.isEmpty ∧ c.steps > 0 ∧ evs.any (·.startsWith "window:open") then [Msg.flag "conc-model-agrees-around-collector"] else []) ++
         (if c.predictedErr then [Msg.flag "conc-model-predicts-update-error"] else []) ++
@@ -439,7 +447,9 @@ def step (st : St) (l : Line) : St × List Msg :=
       | none => []
       | some cs =>
         let exp := keys.map fun k => match Conc.contents cs (digestOf k) with | some v => "v" ++ toHex v | none => "absent"
-        if exp = reads then [Msg.flag "conc-model-final-agrees"] else [Msg.corr s!"section model: final contents model=[{",".intercalate exp}] impl=[{ra.get "reads"}]"]
+        if exp = reads then [Msg.flag "conc-model-final-agrees"]
+        else if !st.d17Keys.isEmpty then [Msg.flag "conc-model-differs-under-d17"]
+        else [Msg.corr s!"section model: final contents model=[{",".intercalate exp}] impl=[{ra.get "reads"}]"]
     (st, concCmp ++ acctMsgs ++ (if head = "ok" then [] else [Msg.prop s!"flush after the schedule failed: {l.res}"]) ++
          (if okFinal then [] else badKeys.map fun (k, r) =>
             Msg.prop s!"key {k} reads [{r}] after all activity stopped; the linearizations of its calls end with {(st.keyFinals.find? (·.1 = k)).map (·.2)}{knownKey k}"))
